@@ -69,12 +69,19 @@ class _Blank(object):
 BLANK = _Blank()
 
 
-def task_reader(which, N, clause, shard=0, nshards=1):
+def task_reader(which, N, clause, shard=0, nshards=1, via_table=False):
     """which: 'float' | 'int'; clause selects the obligation family so that
     families run in parallel: 'value' (a,b), 'reject' (d + nan/None side), 'blank'."""
     ld = _load()
     F = ld.fixed_format_file
     fn = F.fortran_float if which == 'float' else F.fortran_int
+    if via_table:
+        # the readers as the library's own tables hand them to the file parsers
+        # (fortran_read_function: blank value None); an integer that reads as None
+        # cannot be told apart from a rejected one, so only the value clause is run
+        key = 'e' if which == 'float' else 'd'
+        table_fn = F.fortran_read_function[key]
+        fn = lambda s, blank: (lambda r: BLANK if (r is None and which == 'float') else r)(table_fn(s))
     lang = pm.FORTRAN_REAL if which == 'float' else pm.FORTRAN_INT
     pyd = pm.PYFLOAT if which == 'float' else pm.PYINT
     failures, samples, distinct = [], [], set()
@@ -82,9 +89,9 @@ def task_reader(which, N, clause, shard=0, nshards=1):
     def record(c, label, o, res_kind):
         m = c.failures[-1]['model']
         text = o.value_in(m)
-        failures.append(dict(key='%s/%s/%s' % (which, res_kind, label),
+        failures.append(dict(key='%s%s/%s/%s' % (which, '-via-table' if via_table else '', res_kind, label),
                              what='fortran_%s(%r): %s' % (which, text, label),
-                             replay=dict(which=which, text=text, clause=label)))
+                             replay=dict(which=which, text=text, clause=label, via_table=via_table)))
 
     state = dict(k=0)
     def ob(c, f, label, o, res_kind):
@@ -148,9 +155,10 @@ def task_reader(which, N, clause, shard=0, nshards=1):
 
     res = sym.explore(h, sym.Ctx(timeout_ms=900000, logic='QF_BV'), max_paths=200)
     outs = set(p.outcome for p in res['paths'])
-    tr = report.summarize('%s/N=%d/%s/shard%d of %d' % (which, N, clause, shard, nshards), res, failures, samples,
+    tr = report.summarize('%s%s/N=%d/%s/shard%d of %d' % (which, '-via-table' if via_table else '', N, clause, shard, nshards), res, failures, samples,
                           extra=dict(distinct_obligations=len(distinct), N=N))
     need = {'number', 'blank', 'nan'}
+    if via_table and which == 'int': need = {'number', 'nan'}
     if not need <= outs:
         tr['error'] = 'vacuity: paths reached %s, expected all of %s' % (sorted(outs), sorted(need))
     return tr
@@ -175,6 +183,9 @@ def run(tier, seed, rep):
     for which, clause, N, ns in plan:
         for sh in range(ns):
             tasks.append((task_reader, dict(which=which, N=N, clause=clause, shard=sh, nshards=ns)))
+    # the same readers reached through the conversion table used by the incon parser
+    for which, N in (('float', 6), ('int', 8)) if tier == 'quick' else (('float', 8), ('int', 12)):
+        tasks.append((task_reader, dict(which=which, N=N, clause='value', via_table=True)))
     Nb = {}
     for which, clause, N, ns in plan:
         Nb[(which, clause)] = max(N, Nb.get((which, clause), 0))
